@@ -284,7 +284,7 @@ func c22Values(fs *Facts) {
 	fs.Raw("valDec", "["+strings.Join(dl, ", ")+"]", strings.Join(ds, ","), sdk)
 	fs.Tri("valTablesRecognised", TriOf(ok && len(enc) > 0 && len(store) > 0 && len(read) > 0 && len(dec) > 0), sdk)
 	// ---- flags
-	if fd := fm.Func("", "decodeMapBodyInto"); fd != nil {
+	if fd := miscFunc(fm, "", "decodeMapBodyInto"); fd != nil {
 		src := fm.Str(fd)
 		if strings.Contains(src, "raw, ok := raws[f.Name]") && strings.Contains(src, "msgpack.Unmarshal(raw, fv.Addr().Interface())") {
 			skips := false
@@ -315,7 +315,7 @@ func c22Values(fs *Facts) {
 		}
 	}
 	// structural shapes
-	if fd := fm.Func("", "inspectCatalogModel"); fd != nil {
+	if fd := miscFunc(fm, "", "inspectCatalogModel"); fd != nil {
 		src := fm.Str(fd)
 		fs.Tri("bodySkipsUnexported", TriOf(strings.Contains(src, "if !t.Field(i).IsExported() { continue }")), mapb+":"+itoa(fm.Line(fd)))
 		fs.Tri("dashIsSkip", TriOf(strings.Contains(src, `if head == "" || head == "-" {`)), mapb+":"+itoa(fm.Line(fd)))
